@@ -835,7 +835,8 @@ class TCPUDSServerTransport(UDSServerTransport):
             try:
                 line = await reader.readline()
 
-                if not line:
+                # End of stream; an incomplete line is what a dead peer left behind, not a request
+                if not line.endswith(b"\n"):
                     break
 
                 tcp_request = line.decode("ascii").strip()
